@@ -10,10 +10,14 @@ import (
 	"strings"
 	"testing"
 	"testing/synctest"
+	"time"
 
 	"github.com/ipfs/go-cid"
 	cidlink "github.com/ipld/go-ipld-prime/linking/cid"
+	"github.com/ipld/go-ipld-prime/traversal/selector"
 	"github.com/ipni/go-libipni/dagsync"
+	"github.com/ipni/go-libipni/dagsync/ipnisync"
+	"github.com/libp2p/go-libp2p/core/peer"
 	"github.com/multiformats/go-multihash"
 
 	"verifharness/fixture"
@@ -139,9 +143,116 @@ func firstLine(s string) string {
 	return s
 }
 
+// checkDirectClients: the sync client used without the Subscriber
+// (ipnisync.NewSync with each client option and with all of them, NewSyncer,
+// Syncer.Sync with the library's selector) against a publisher that serves one
+// block of a generic chain altered: flipped bits, another valid block of the
+// chain, a truncation, appended bytes. Whatever the client was configured
+// with, nothing that does not hash to its CID is stored, reported or counted.
+func checkDirectClients(t *testing.T, r *vp.Recorder) {
+	const L = 3
+	clientOpts := []struct {
+		name string
+		opts []ipnisync.ClientOption
+	}{
+		{"none", nil},
+		{"auth-server-peer-id", []ipnisync.ClientOption{ipnisync.ClientAuthServerPeerID(true)}},
+		{"http-timeout", []ipnisync.ClientOption{ipnisync.ClientHTTPTimeout(5 * time.Second)}},
+		{"http-retry", []ipnisync.ClientOption{ipnisync.ClientHTTPRetry(1, time.Millisecond, 2*time.Millisecond)}},
+		{"auth+retry+timeout", []ipnisync.ClientOption{ipnisync.ClientAuthServerPeerID(true), ipnisync.ClientHTTPRetry(1, time.Millisecond, 2*time.Millisecond), ipnisync.ClientHTTPTimeout(5 * time.Second)}},
+	}
+	alters := []string{"bitflip-first", "bitflip-middle", "bitflip-last", "substitute-older", "substitute-newer", "truncate-half", "append-space", "empty"}
+	for _, co := range clientOpts {
+		for _, disc := range []bool{false, true} {
+			for k := 0; k < L; k++ {
+				for _, alt := range alters {
+					key := fmt.Sprintf("direct-client|%s|disc=%v|k%d|%s", co.name, disc, k, alt)
+					if !r.Mine(key) {
+						continue
+					}
+					r.Eval(key, true)
+					var bad, cls string
+					syncfx.Bubble(t, func(t *testing.T) {
+						w := syncfx.NewWorld()
+						defer w.Close()
+						id := fixture.Key("ed25519", 0)
+						p := w.AddPub(id, disc)
+						ch := syncfx.BuildMapChain(p.Src, L, syncfx.DefaultProto, "c02-direct")
+						genuine, _ := p.Src.Get(ch.Cids[k])
+						body := append([]byte(nil), genuine...)
+						switch alt {
+						case "bitflip-first":
+							body[0] ^= 1
+						case "bitflip-middle":
+							body[len(body)/2] ^= 0x10
+						case "bitflip-last":
+							body[len(body)-1] ^= 0x80
+						case "substitute-older":
+							body, _ = p.Src.Get(ch.Cids[(k+L-1)%L])
+						case "substitute-newer":
+							body, _ = p.Src.Get(ch.Cids[(k+1)%L])
+						case "truncate-half":
+							body = body[:len(body)/2]
+						case "append-space":
+							body = append(body, ' ')
+						case "empty":
+							body = []byte{}
+						}
+						target := ch.Cids[k]
+						p.Script = func(rq *syncfx.Req) *syncfx.Fault {
+							if rq.Kind == "block" && rq.Cid.Equals(target) {
+								return bodyFault(alt, body)
+							}
+							return nil
+						}
+						var hooks []cid.Cid
+						sy := ipnisync.NewSync(w.Dst.LinkSystem(), func(_ peer.ID, c cid.Cid) { hooks = append(hooks, c) }, co.opts...)
+						defer sy.Close()
+						syncer, err := sy.NewSyncer(p.AddrInfo())
+						if err != nil {
+							bad, cls = "NewSyncer: "+err.Error(), "new-syncer-error"
+							return
+						}
+						ctx, cerr := ipnisync.CtxWithCidSchema(context.Background(), ipnisync.CidSchemaEntryChunk)
+						if cerr != nil {
+							panic(cerr)
+						}
+						var serr error
+						if pn, pm := vp.Guard(func() {
+							serr = syncer.Sync(ctx, ch.Head(), dagsync.DagsyncSelector(selector.RecursionLimitDepth(16), nil)) // bounded: a substituted block that is accepted can close a cycle
+							synctest.Wait()
+						}); pn {
+							bad, cls = "panic: "+firstLine(pm), "panic"
+							return
+						}
+						if badBlocks := w.Dst.Audit(); len(badBlocks) != 0 {
+							bad, cls = fmt.Sprintf("client option %s, block %d served as %s: the store holds %d block(s) whose bytes do not hash to their CID, e.g. %s (sync error: %v)", co.name, k, alt, len(badBlocks), badBlocks[0], serr), "store-holds-bytes-not-hashing-to-cid"
+							return
+						}
+						for _, h := range hooks {
+							if data, ok := w.Dst.Get(h); !ok || !syncfx.Verifies(h, data) {
+								bad, cls = fmt.Sprintf("client option %s: the hook was handed %s, which is not stored with bytes hashing to it", co.name, h), "hook-for-unverified-block"
+								return
+							}
+						}
+						if serr == nil {
+							bad, cls = fmt.Sprintf("client option %s, block %d served as %s: Sync reported success", co.name, k, alt), "sync-succeeded-with-tampered-block"
+						}
+					})
+					if bad != "" {
+						r.Violation("direct-client:"+cls+":"+co.name, key, bad, nil)
+						continue
+					}
+					r.Outcome("direct-client-rejected")
+				}
+			}
+		}
+	}
+}
+
 func TestCheck(t *testing.T) {
 	r := vp.New("C02", "fault_enumeration",
-		"for every multihash function of the tier x chain kind (real signed advertisements with the strict selector; small generic map chains, and a generic DAG with fan-out in which every block is followed by further requests of the same walk, with the non-strict selector) x chain length L x segmented/unsegmented x every block-request position k: the body of block k is replaced by every single-bit flip (all bits of the small blocks, strided on real advertisements), every truncation length with consistent and with the original Content-Length, truncations after which the response is left open until the client's own time-out ends the request, the body breaking off because the connection is reset (the client's read fails with network.ErrReset, as on a libp2p stream) with the whole block served on the next request, appended bytes (1, 1 KiB, 1 MiB), every other valid block of the chain, an empty body, the same node re-serialised with whitespace; then a healthy sync and a third sync tampered at another position on the same subscriber. Non-trivial: every tampered run. Distinct = distinct (scenario, tamper).",
+		"for every multihash function of the tier x chain kind (real signed advertisements with the strict selector; small generic map chains, and a generic DAG with fan-out in which every block is followed by further requests of the same walk, with the non-strict selector) x chain length L x segmented/unsegmented x every block-request position k: the body of block k is replaced by every single-bit flip (all bits of the small blocks, strided on real advertisements), every truncation length with consistent and with the original Content-Length, truncations after which the response is left open until the client's own time-out ends the request, the body breaking off because the connection is reset (the client's read fails with network.ErrReset, as on a libp2p stream) with the whole block served on the next request, appended bytes (1, 1 KiB, 1 MiB), every other valid block of the chain, an empty body, the same node re-serialised with whitespace; then a healthy sync and a third sync tampered at another position on the same subscriber. The sync client used directly (NewSync with each ClientOption and with all of them, NewSyncer, Syncer.Sync) against 8 alterations of each block of a 3-block chain, both transports. Non-trivial: every tampered run. Distinct = distinct (scenario, tamper).",
 		"hash functions are trusted to be collision resistant for the enumerated single alterations",
 		"quick tier strides bit flips and truncations of real advertisements (every 11th); small map blocks are enumerated bit by bit",
 	)
@@ -194,6 +305,7 @@ func TestCheck(t *testing.T) {
 			return
 		}
 	}
+	checkDirectClients(t, r)
 	t.Logf("violations: %d", r.Violations())
 }
 
